@@ -20,7 +20,7 @@ from vlib.common import REPO
 LAST_FAILURE = None
 THOROUGH = os.environ.get("VERIF_TIER", "quick") == "thorough"
 DATA = os.path.join(os.path.dirname(os.path.abspath(__file__)), "data")
-LF = 5 if THOROUGH else 4
+LF = 4 if THOROUGH else 3
 
 
 def _fail(**kw):
@@ -404,7 +404,7 @@ def conds(tier):
     M = "harness.c16"
     return [
         xh.Cond(M, "c16_matlab_concat", t(300, 1800), examples=["f1='a', tail=0", "f1='a;//a', tail=1", "f1='a;\\n', tail=0", "f1='/*a*/', tail=2"],
-                bounds="file1: all strings of length <= %d over {/,*,newline,space,a,;}; file2: 3 fixed continuations" % (4 if q else 5)),
+                bounds="file1: all strings of length <= %d over {/,*,newline,space,a,;}; file2: 3 fixed continuations" % (3 if q else 4)),
         xh.Cond(M, "c16_pybind_parts", t(200, 900), kind="shape-bounded", examples=["nparts=2, boost=1, order=0"], bounds="0-2 additional files x serialization x 2 orders"),
         xh.Cond(M, "c16_scripts", t(420, 1800), kind="shape-bounded", path_timeout=60, examples=["which=0, top=1, ign=2, boost=0, sub=0", "which=1, top=0, ign=0, boost=0, sub=1", "which=0, top=0, ign=0, boost=1, sub=1"],
                 bounds="2 scripts x 5 --top_module_namespaces values x 4 --ignore forms (absent, empty, one, two) x serialization x (submodule | second file)"),
